@@ -22,6 +22,7 @@ mod p14;
 mod p15;
 mod p16;
 mod p17;
+mod p18;
 mod csg;
 
 use engine::*;
@@ -47,6 +48,7 @@ macro_rules! for_prop {
             "C15" => $f::<p15::P>($($arg),*),
             "C16" => $f::<p16::P>($($arg),*),
             "C17" => $f::<p17::P>($($arg),*),
+            "C18" => $f::<p18::P>($($arg),*),
             other => {
                 eprintln!("unknown property {other}");
                 std::process::exit(2)
